@@ -84,6 +84,8 @@ static void w_notreached(void) { ASSERT_NOTREACHED(); g->cont = 1; }
 static int w_notreached_rval(void) { ASSERT_NOTREACHED_RVAL(RET_VAL); g->cont = 1; return RET_CONT; }
 static void w_require_t(void) { REQUIRE(truev() == one()); g->cont = 1; }
 static void w_require_f(void) { REQUIRE(truev() == two()); g->cont = 1; }
+/* as the unbraced arm of an if/else: the macro must be one statement, or the else pairs with an if hidden inside it */
+static void w_require_t_arm(void) { if (one()) REQUIRE(truev() == one()); else g->evals += 100; g->cont = 1; }
 static int w_require_rval_t(void) { REQUIRE_RVAL(truev() && one(), RET_VAL); g->cont = 1; return RET_CONT; }
 static int w_require_rval_f(void) { REQUIRE_RVAL(truev() && zero(), RET_VAL); g->cont = 1; return RET_CONT; }
 
@@ -134,6 +136,7 @@ static const struct macro {
     {"ASSERT_NOTREACHED_RVAL", K_NOTREACHED, 0, 0, w_notreached_rval},
     {"REQUIRE(true)", K_REQUIRE_T, 0, w_require_t, 0},
     {"REQUIRE", K_REQUIRE_F, 0, w_require_f, 0},
+    {"REQUIRE(true) as an if/else arm", K_REQUIRE_T, 0, w_require_t_arm, 0},
     {"REQUIRE_RVAL(true)", K_REQUIRE_T, 0, 0, w_require_rval_t},
     {"REQUIRE_RVAL", K_REQUIRE_F, 0, 0, w_require_rval_f},
 };
